@@ -146,6 +146,26 @@ def run(rep: Report, tier: str) -> None:
 	ra.check('int(index_key)' in unparse(da.node), 'reader-int-index', da.where, 'indices are no longer parsed with int(): "10" would sort/compare as text')
 	ra.check('db[data_attrs[path]]' in unparse(da.node), 'reader-lookup', da.where, 'attribute values are no longer looked up in db by the written type key')
 
+
+	# export order: dependencies first. _order_keys_recursive must be a post-order walk: it visits every attribute unconditionally before it lists the symbol's own type key
+	ro = rep.rule('C14/export-post-order', 'SymbolDB._order_keys_recursive recurses into every attribute before appending the type key, and no early return can skip the recursion (so import never meets a key that is not yet present)', floor=3)
+	okr = db.cls('SymbolDB').method('_order_keys_recursive')
+	ok_ = db.cls('SymbolDB').method('_order_keys')
+	if okr is None or ok_ is None:
+		raise AnalysisError('SymbolDB._order_keys/_order_keys_recursive vanished')
+	body = [s_ for s_ in okr.node.body if not (isinstance(s_, ast.Expr) and isinstance(s_.value, ast.Constant))]
+	loop_i = next((i for i, s_ in enumerate(body) if isinstance(s_, ast.For) and 'symbol.attrs' in unparse(s_.iter) and '_order_keys_recursive' in unparse(s_)), None)
+	app_i = next((i for i, s_ in enumerate(body) if 'orders.append' in unparse(s_)), None)
+	ro.check(loop_i is not None, 'recurses-into-attrs', okr.where, '_order_keys_recursive no longer walks symbol.attrs recursively at the top level of its body')
+	if loop_i is not None:
+		early = [unparse(s_)[:60] for s_ in body[:loop_i] if any(isinstance(x, ast.Return) for x in ast.walk(s_))]
+		ro.check(not early, 'no-return-before-recursion', okr.where, f'a return before the attribute walk ({early}) skips the type arguments of a symbol whose key is already listed: a class referenced only through a same-module generic (Box[Tree]) is then exported after its user and import raises SymbolNotDefined')
+		ro.check(app_i is not None and app_i > loop_i, 'append-after-recursion', okr.where, 'the type key must be appended after the attributes were visited (post-order)')
+		cond_loop = isinstance(body[loop_i], ast.For) and not any(isinstance(x, (ast.Continue, ast.Break)) for x in ast.walk(body[loop_i]))
+		ro.check(cond_loop, 'recursion-unconditional', okr.where, 'the attribute walk skips or stops early for some attributes')
+	src_ok = unparse(ok_.node)
+	ro.check('_order_keys_recursive(module_path, self.__items[key], orders)' in src_ok and 'if key not in orders' in src_ok and src_ok.index('_order_keys_recursive(') < src_ok.index('if key not in orders'), 'key-after-dependencies', ok_.where, '_order_keys no longer lists the dependencies of a key (recursive walk) before the key itself')
+
 	# db import/export
 	rd = rep.rule('C14/db-import-export', 'SymbolDB.to_json serialises the ordered keys, import_json stores each row under its key and marks the module completed via the key parser __setitem__ uses', floor=4)
 	sdb = db.cls('SymbolDB')
